@@ -89,12 +89,23 @@ def run_faulted(cfg):
             return "scalar"
         return int(np.size(s2))
 
+    def start_kind(h):
+        """the start point handed to fit: 'none' | 'zeros' (every entry exactly 0) | 'other'"""
+        if h is None:
+            return "none"
+        try:
+            h = np.asarray(h, dtype=float)
+            return "zeros" if h.size > 0 and bool(np.all(h == 0.0)) else "other"
+        except Exception:        # noqa: BLE001
+            return "other"
+
     def w_fit(self, X=None, y=None, s2=None, *a, **k):
         j = cnt["fit"]
         cnt["fit"] += 1
         caller = sys._getframe(1).f_code.co_name
         attempts.append(dict(j=j, caller=caller, nX=None if X is None else int(np.shape(X)[0]), nY=None if y is None else int(np.shape(y)[0]),
-                             s2=size_of(s2), tmp=size_of(self.s2), faulted=j in faults))
+                             s2=size_of(s2), tmp=size_of(self.s2), faulted=j in faults, raised=False,
+                             start=start_kind(k.get("hyp0"))))
         if j in faults:
             Xc, yc, s2c = self._convert_shapes(X, y, s2)
             if Xc is not None:
@@ -103,8 +114,13 @@ def run_faulted(cfg):
                 self.y = yc
             if s2c is not None:
                 self.s2 = s2c
+            attempts[-1]["raised"] = True
             raise LinAlgError(f"injected fault at fit invocation {j}")
-        return o_fit(self, X, y, s2, *a, **k)
+        try:
+            return o_fit(self, X, y, s2, *a, **k)
+        except LinAlgError:
+            attempts[-1]["raised"] = True      # a REAL numerical failure: same oracle answer as an injected one
+            raise
 
     def w_upd(self, *a, **k):
         caller = sys._getframe(1).f_code.co_name
